@@ -802,3 +802,43 @@ Proof.
     + destruct a as [i|u|c|f]; destruct b as [j|v|d|g]; cbn [mod_do]; unfold imod, umod;
         try contradiction; try reflexivity; rewrite H; reflexivity.
 Qed.
+
+(* ---- n-ary folds (NumericFunction) ---- *)
+From Coq Require Import List.
+Import ListNotations.
+Lemma wrap64_add_l : forall x y, wrap64 (wrap64 x + y) = wrap64 (x + y).
+Proof.
+  intros x y. unfold wrap64. pose proof two64_pos as Hp.
+  f_equal.
+  replace ((x + two63) mod two64 - two63 + y + two63) with ((x + two63) mod two64 + y) by ring.
+  replace (x + y + two63) with ((x + two63) + y) by ring.
+  rewrite Z.add_mod_idemp_l by lia. reflexivity.
+Qed.
+
+Lemma fold_err_stays : forall op l,
+  fold_left (fun acc x => match acc with Ok v => numeric_do op v x | Err => Err end) l (@Err num) = Err.
+Proof. intros op l; induction l as [|x l IH]; cbn [fold_left]; auto. Qed.
+
+Lemma add_fold_ints_from : forall l a,
+  fold_left (fun acc x => match acc with Ok v => numeric_do OpAdd v x | Err => Err end)
+            (map NInt l) (Ok (NInt (wrap64 a)))
+  = Ok (NInt (wrap64 (a + fold_right Z.add 0 l))).
+Proof.
+  induction l as [|x l IH]; intro a; cbn [map fold_left fold_right].
+  - rewrite Z.add_0_r. reflexivity.
+  - cbn [numeric_do int_do]. rewrite wrap64_add_l. rewrite IH. f_equal. f_equal. f_equal. ring.
+Qed.
+
+(* (+ a1 a2 ... an) on ints is the sum reduced to int64, whatever the number of operands *)
+Lemma add_fold_wraps : forall a l, in_i64 a = true ->
+  numeric_fold OpAdd (map NInt (a :: l)) = Ok (NInt (wrap64 (a + fold_right Z.add 0 l))).
+Proof.
+  intros a l Ha. unfold numeric_fold. cbn [map].
+  rewrite <- (wrap64_id a Ha) at 1. apply add_fold_ints_from.
+Qed.
+
+Lemma fold_single : forall op a, numeric_fold op [a] = Ok a.
+Proof. reflexivity. Qed.
+
+Lemma fold_two : forall op a b, numeric_fold op [a; b] = numeric_do op a b.
+Proof. reflexivity. Qed.
